@@ -56,6 +56,9 @@ type c17Spec struct {
 	Order    string // "", "name", "delta", "rname", "rdelta"
 	GeoMean  bool
 	SplitPkg bool
+	// AltUnits: every second repetition of a benchmark line reports its units in reverse order, so consecutive
+	// lines of one benchmark carry different units in the same column
+	AltUnits bool `json:",omitempty"`
 }
 
 // values returns the measurements of (config, benchmark index, unit index).
@@ -92,7 +95,12 @@ func (s c17Spec) text(ci int) string {
 				}
 				var line strings.Builder
 				fmt.Fprintf(&line, "Benchmark%s 1", bench)
-				for ui, u := range s.Units {
+				for k := range s.Units {
+					ui := k
+					if s.AltUnits && rep%2 == 1 {
+						ui = len(s.Units) - 1 - k
+					}
+					u := s.Units[ui]
 					vs := s.values(ci, s.benchIndex(bench), ui)
 					_ = bi
 					v := vs[rep]
@@ -773,6 +781,14 @@ func c17LargeSpecs(thorough bool) []c17Spec {
 			}
 		}
 	}
+	// lines of one benchmark whose unit columns change from one repetition to the next
+	for _, lay := range [][][]string{{{"A"}, {"A"}}, {{"A", "B"}, {"B", "A"}}} {
+		for _, us := range [][]string{{"ns/op", "B/op"}, {"ns/op", "MB/s", "B/op"}, {"x-ns/op", "widgets", "MB/s"}} {
+			for _, pp := range [][2]string{{"incr", "incr"}, {"ties", "two"}} {
+				specs = append(specs, c17Spec{Configs: 2, Layout: lay, Units: us, Pats: pp[:], Shift: []float64{1, 1.25}, AltUnits: true})
+			}
+		}
+	}
 	return specs
 }
 
@@ -786,7 +802,7 @@ func c17Large(c *mc.Check) {
 			}
 		}
 	}
-	f := c.Family("large-tables", fmt.Sprintf("%d collections of two configurations with 12–26 benchmarks in scrambled and reversed orders (all rows insignificant so that every row ties under a delta order; equal deltas; the same names in two groups so that rows tie under a name order) × %d settings (test × every order × grouping): same oracle as collections-x-settings — rows with equal sort keys keep their first-appearance order, which an unstable sort only happens to do for small tables; non-trivial = every collection", len(specs), len(settings)), c17Replay)
+	f := c.Family("large-tables", fmt.Sprintf("%d collections of two configurations with 12–26 benchmarks in scrambled and reversed orders (all rows insignificant so that every row ties under a delta order; equal deltas; the same names in two groups so that rows tie under a name order), and collections whose lines report their units in a different column order from one repetition to the next, × %d settings (test × every order × grouping): same oracle as collections-x-settings — rows with equal sort keys keep their first-appearance order, which an unstable sort only happens to do for small tables; non-trivial = every collection", len(specs), len(settings)), c17Replay)
 	if c.Replaying() {
 		return
 	}
